@@ -284,6 +284,10 @@ func VsymC16List() {
 	root := base + "/plugins"
 	c16Must(os.MkdirAll(root, 0o755))
 	c16Must(os.MkdirAll(base+"/elsewhere", 0o755))
+	// the directory a symbolic link in the plugin root points to looks like an installed plugin of each name
+	for _, nm := range []string{"alpha", "beta", "gamma", "zeta"} {
+		c16Must(os.WriteFile(base+"/elsewhere/notation-"+nm, []byte("outside"), 0o755))
+	}
 	names := []string{"alpha", "beta", "gamma", "zeta"}
 	n := vr.Param("entries", 3)
 	var want []string
@@ -309,6 +313,29 @@ func VsymC16List() {
 	vr.Assert(ok, "listing reports exactly the real (non-symlink) sub-directories of the plugin root")
 	if len(want) > 0 {
 		vr.Reach("plugins listed")
+	}
+	// uninstalling one of the names removes <root>/<name> at most: whatever <root>/<name> is (a plugin directory,
+	// a file, a symbolic link to a directory elsewhere), nothing outside the plugin root is touched and no other
+	// entry of the root either
+	if n > 0 {
+		k := vr.Choice("uninstall", n)
+		outside := fskit.Tree(base + "/elsewhere")
+		var others [][]string
+		for i := 0; i < n; i++ {
+			if i != k {
+				others = append(others, fskit.Tree(root+"/"+names[i]))
+			}
+		}
+		_ = mgr.Uninstall(context.Background(), names[k])
+		vr.Assert(fskit.SameTree(outside, fskit.Tree(base+"/elsewhere")), "uninstalling a plugin touches nothing outside the plugin root, even when <root>/<name> is a symbolic link to a directory elsewhere")
+		j := 0
+		for i := 0; i < n; i++ {
+			if i != k {
+				vr.Assert(fskit.SameTree(others[j], fskit.Tree(root+"/"+names[i])), "uninstalling a plugin leaves the other entries of the plugin root as they were")
+				j++
+			}
+		}
+		vr.Reach("uninstalled one entry")
 	}
 	// a missing root lists nothing
 	mgr2 := NewCLIManager(dir.NewSysFS(base + "/missing"))
